@@ -411,6 +411,13 @@ fn semantic_tokens(root: &Relation) -> BTreeMap<String, usize> {
             let t = format!("{}", v);
             if t == "NULL" || t == "none" { "null".to_string() } else { t }
         }
+        fn neg(v: &qrlew::data_type::value::Value) -> Option<String> {
+            let t = format!("{}", v);
+            match t.strip_prefix('-') {
+                Some(rest) if t.parse::<f64>().is_ok() => Some(rest.to_string()),
+                _ => None,
+            }
+        }
         fn strip(e: &Expr) -> Expr {
             let mut inner = e.clone();
             while let Some(x) = is_guard(&inner) {
@@ -435,6 +442,8 @@ fn semantic_tokens(root: &Relation) -> BTreeMap<String, usize> {
         fn shape(e: &Expr) -> String {
             match &strip(e) {
                 Expr::Column(_) => "$".to_string(),
+                // a negative literal (built by the compiler) is rendered `-2` and read back as -(2)
+                Expr::Value(v) if neg(v).is_some() => format!("Opposite({})", neg(v).unwrap()),
                 Expr::Value(v) => lit(v),
                 Expr::Function(f) => {
                     let name = match f.function() {
@@ -454,6 +463,10 @@ fn semantic_tokens(root: &Relation) -> BTreeMap<String, usize> {
         let e = &stripped;
         match e {
             Expr::Column(_) => {}
+            Expr::Value(v) if neg(v).is_some() => {
+                *out.entry("fn:Opposite".to_string()).or_default() += 1;
+                *out.entry(format!("lit:{}", neg(v).unwrap())).or_default() += 1;
+            }
             Expr::Value(v) => {
                 *out.entry(format!("lit:{}", lit(v))).or_default() += 1;
             }
@@ -586,7 +599,9 @@ fn reparse_check(ctx: &Ctx, who: &str, qi: usize, r: &Relation, text: &str, c2: 
         // tolerated: LIMIT is rendered at two levels (idempotent), so only its presence counts
         let same = t1.keys().chain(t2.keys()).all(|k| {
             let (a, b) = (*t1.get(k).unwrap_or(&0), *t2.get(k).unwrap_or(&0));
-            if k.starts_with("limit:") {
+            // ... and for a DP-compiled relation every token counts by presence: the parser shares
+            // textually identical sub-queries (two independent RANDOM() maps become one node)
+            if k.starts_with("limit:") || who.ends_with("-dp") {
                 (a > 0) == (b > 0)
             } else {
                 a == b
@@ -600,14 +615,14 @@ fn reparse_check(ctx: &Ctx, who: &str, qi: usize, r: &Relation, text: &str, c2: 
                 "reparse_structure",
                 fix_class,
                 format!("{}: re-parsing the SQL rendered for `{}` gives a relation that computes something else (operators / literals / functions that differ: {:?})", who, q, diff),
-                json!({"query": q, "rendered": text.chars().take(400).collect::<String>(), "differs": diff}),
+                json!({"query": q, "rendered": text.chars().take(if std::env::var("VERIF_DEBUG").is_ok() { 20000 } else { 400 }).collect::<String>(), "differs": diff}),
             );
             return;
         } else {
             probe(ctx, "structure_same_after_reparse");
         }
     }
-    if semantic && !ctx.refs[qi].has_random {
+    if semantic && !ctx.refs[qi].has_random && !who.ends_with("-dp") {
         let lq = q.to_lowercase();
         // LIMIT / OFFSET select rows by order: comparable only under a total order (ORDER BY id)
         if (lq.contains(" limit ") || lq.contains(" offset ")) && !lq.contains("order by id") {
@@ -715,6 +730,30 @@ fn reference_pass(wl: &Workload, alt: bool) -> RefOut {
                 let text = ast::Query::from(r).to_string();
                 let (c2, r2) = compile(&rel2, &text);
                 reparse_check(&ctx, "reference", qi, r, &text, &c2, &r2, true);
+                // the same fixpoint for the relation the DP compiler returns for this query (its
+                // rendering is what gets executed): schema and structure, not executed here
+                if qi == 0 && !refs[qi].has_random {
+                    let (sc, rel) = (wl2.sc.clone(), rel2.clone());
+                    let rr = r.clone();
+                    let dp = std::panic::catch_unwind(std::panic::AssertUnwindSafe(move || {
+                        rr.rewrite_with_differential_privacy(&rel, sc.synthetic_data(), sc.privacy_unit(), sc.params.dp()).ok().map(|x| x.relation().clone())
+                    }));
+                    // a VALUES relation (public key values) is not in the parser's language: such a
+                    // rendering is not a supported query
+                    fn has_values(r: &Relation) -> bool {
+                        matches!(r, Relation::Values(_)) || r.inputs().iter().any(|i| has_values(i))
+                    }
+                    if let Ok(Some(dp_rel)) = dp {
+                        if has_values(&dp_rel) {
+                            probe(&ctx, "dp_rendering_has_values");
+                            continue;
+                        }
+                        let dp_text = ast::Query::from(&dp_rel).to_string();
+                        let (c3, r3) = compile(&rel2, &dp_text);
+                        probe(&ctx, "dp_rendering_reparsed");
+                        reparse_check(&ctx, "reference-dp", qi, &dp_rel, &dp_text, &c3, &r3, true);
+                    }
+                }
                 // rendering is a function of (relation, translator), whatever was rendered before:
                 // the same relation through the harness's own translator (which marks every CTE
                 // MATERIALIZED, the stock one never does) right after the stock rendering
